@@ -7,6 +7,68 @@ Open Scope Z_scope.
 
 (* Layer B: the document read from the emitted text, observation points (named signals, then top-level output
    port wires), initial input values, stimulus.  One row per settle: status, then the observations. *)
-Definition k_run (d : doc) (obs : list (option (list nat * nat * Z))) (ports : list (list nat * nat * Z))
+Definition k_run (alt : bool) (d : doc) (obs : list (option (list nat * nat * Z))) (ports : list (list nat * nat * Z))
                  (init_ins : list (nat * Z)) (stim : list (list (nat * Z))) : list Z :=
-  run d (obs ++ map (fun p => Some p) ports) init_ins stim.
+  run d (obs ++ map (fun p => Some p) ports) init_ins stim ++
+  (* designs with a part-select of a signed value: the same run under the OTHER reading of $shift, after -6
+     (lets the harness tell finding C04-part-select-signed-shift-zero-fill from any other disagreement) *)
+  (if alt then -6 :: run_with (negb SHIFT_SIGNED_FILLS_SIGN) d (obs ++ map (fun p => Some p) ports) init_ins stim
+   else []).
+
+(* ---- AssignmentList lowering (emit_value, emit_assignment_list) on data read from the real netlist ---- *)
+(* nets: 0 / 1 = constants, n >= 2 = net number n - 2 *)
+Definition nets_of (l : list Z) : list net :=
+  map (fun z => if z <? 2 then NC (z =? 1) else NV (Z.to_nat (z - 2))) l.
+Definition enc_nets (l : list net) : list Z :=
+  map (fun n => match n with NC b => if b then 1 else 0 | NV i => Z.of_nat i + 2 end) l.
+(* patterns: 0, 1, 2 = '-' ; MSB first *)
+Definition pat_of (l : list Z) : pattern := map (fun z => if z =? 2 then None else Some (z =? 1)) l.
+Definition enc_pat (p : pattern) : list Z :=
+  Z.of_nat (length p) :: map (fun b => match b with None => 2 | Some true => 1 | Some false => 0 end) p.
+(* conditions: (0, _) = const 1 ; (k + 1, bit) = output bit of Match cell k *)
+Definition cnd_of (p : Z * Z) : cnd := if fst p =? 0 then CTrue else CM (Z.to_nat (fst p - 1)) (Z.to_nat (snd p)).
+Definition enc_cnd (c : cnd) : list Z := match c with CTrue => [0; 0] | CM k b => [Z.of_nat k + 1; Z.of_nat b] end.
+Definition mtab_of (l : list (Z * Z * list Z * list (list (list Z)))) : mtab :=
+  map (fun m => let '(en, sel, pats) := m in MC (cnd_of en) (nets_of sel) (map (map pat_of) pats)) l.
+Definition nas_of (l : list (Z * Z * Z * list Z)) : list nassign :=
+  map (fun a => let '(c, s, v) := a in NA (cnd_of c) s (nets_of v)) l.
+
+(* shape of a process body: assign = [0; start; width] ; switch = [1; selector width; #cases; per case: #patterns,
+   patterns, #statements, statements] *)
+Fixpoint enc_pt (t : ptree) : list Z :=
+  match t with
+  | PA s v => [0; (if nlen v =? 0 then 0 else s); nlen v]    (* the text does not show the offset of a zero-width assign *)
+  | PS sel cs =>
+      [1; nlen sel; Z.of_nat (length cs)] ++
+      (fix go (cs : list (list pattern * list ptree)) : list Z :=
+         match cs with
+         | [] => []
+         | c :: cs' =>
+             (Z.of_nat (length (fst c)) :: flat_map enc_pat (fst c)) ++
+             (Z.of_nat (length (snd c)) ::
+              (fix run (ts : list ptree) : list Z :=
+                 match ts with [] => [] | t' :: ts' => enc_pt t' ++ run ts' end) (snd c)) ++ go cs'
+         end) cs
+  end.
+
+(* every AssignmentList cell of a design: the process emit_assignment_list builds, -5 after each; [-1] = its assert *)
+Definition k_alists (tab : list (Z * Z * list Z * list (list (list Z))))
+                    (cells : list (list Z * list (Z * Z * Z * list Z))) : list Z :=
+  flat_map (fun c => match emit_assignment_list (mtab_of tab) (nets_of (fst c)) (nas_of (snd c)) with
+                     | Some ts => flat_map enc_pt ts ++ [-5]
+                     | None => [-1; -5]
+                     end) cells.
+
+(* NetlistDriver.emit_value calls: (chunk start, chunk end, nets of the signal's default, the driver's assignments):
+   default nets, -7, then per kept assignment cond, start, width, nets ; -8 after each call *)
+Definition k_emit_values (calls : list (Z * Z * list Z * list (Z * Z * Z * list Z))) : list Z :=
+  flat_map (fun c => let '(cs, ce, sig, l) := c in
+                     let '(d, kept) := emit_value cs ce (nets_of sig) (nas_of l) in
+                     enc_nets d ++ [-7] ++
+                     flat_map (fun a => enc_cnd (na_cond a) ++ [na_start a; nlen (na_val a)] ++ enc_nets (na_val a)) kept
+                     ++ [-8]) calls.
+
+Definition k_al (tab : list (Z * Z * list Z * list (list (list Z))))
+                (cells : list (list Z * list (Z * Z * Z * list Z)))
+                (calls : list (Z * Z * list Z * list (Z * Z * Z * list Z))) : list Z :=
+  k_alists tab cells ++ [-9] ++ k_emit_values calls.
